@@ -24,7 +24,8 @@ RULE = ("case = (client kind, configuration {key_prefix, allow_unicode_keys, enc
         "equals the independently computed intended command list (verb, prefixed key, flags, exptime, length, data "
         "block, cas, noreply) with zero parse errors and an empty pending buffer. raw_command (single-line commands and storage commands carrying their data block - blocks that are empty, end in CR LF, or contain a command line): the server must read exactly what a strict parser reads from the caller's bytes plus one CR LF. Call histories: every sequence of 2-3 calls (Hypothesis: up to 10) on ONE client object over a 15-instance alphabet in which the same tokens occur as keys and as arguments of `stats` / `cache_memlimit` (which are validated with an empty prefix), with three prefixes and all four client stacks - each call is judged like a single call. Non-trivial: the key contains a "
         "byte < 0x21, 0x7f or >= 0x80 or is at a length boundary, or the value contains CR LF, or an integer is at a "
-        "range boundary or not an integer, or the call is multi-key with an illegal member. Flag spellings: per-call noreply and default_noreply given as non-bool values (1, 2, 'yes', 'no', 1.0, -1, [0], b'0' / 0, '', 0.0, [], (), b'') must put the same bytes on the wire as True resp. False, for every command that takes the flag and every stack. Subclassed clients: every command through a Client subclass that maps keys into a namespace (directly and as client_class of the pooled and hash stacks) must carry the key mapped exactly once.")
+        "range boundary or not an integer, or the call is multi-key with an illegal member. Flag spellings: per-call noreply and default_noreply given as non-bool values (1, 2, 'yes', 'no', 1.0, -1, [0], b'0' / 0, '', 0.0, [], (), b'') must put the same bytes on the wire as True resp. False, for every command that takes the flag and every stack. Subclassed clients: every command through a Client subclass that maps keys into a namespace (directly and as client_class of the pooled and hash stacks) must carry the key mapped exactly once."
+        + ' The fake socket offers sendmsg() with short writes (64 bytes at a time): code that uses it must go on with the rest.')
 MANIFEST = {
     "category": "exploration",
     "technique": "bounded-exhaustive key enumeration + Hypothesis-generated operations against a strict independent request parser (differential: parsed command log vs. independently computed intended commands)",
